@@ -27,7 +27,7 @@ META = {
         "selector driven: the schedule is enumerated by the solver's forking; each path runs concretely",
         "fullcall: 2 real threads sharing ONE cold XmlContext and ONE XmlParser / JsonParser / TreeParser / XmlSerializer / JsonSerializer instance; thread A (one complete parse / render call of a pool document) is suspended at "
         "its k-th line event inside the xsdata package, k a symbolic integer over EVERY line boundary of the call (1k-6k per call, also inside comprehensions, sort keys and nested calls); thread B then runs one complete call; A resumes. "
-        "Both results must equal the results of the calls run alone on fresh instances. quick: 5 x 4 operation pairs (+ 3 XInclude file-route pairs) with 11 loaded model classes; thorough: the quick pairs plus 102 x 2 pairs with all harness classes loaded",
+        "Both results must equal the results of the calls run alone on fresh instances. quick: 5 x 4 operation pairs (+ 3 XInclude file-route pairs, a root xsi:type prefix pair, two cold first-render pairs) with 11 loaded model classes; thorough: the quick pairs plus 102 x 2 pairs with all harness classes loaded",
     ],
     "outside": ["preemption inside a statement", "more than 2 threads, more preemptions", "the parsers' per-call state (not shared by design)", "full parse / serialize calls with more than one preemption (fullcall explores exactly one suspension of A with B atomic; finer interleavings only for the lowered context / XmlVar API)", "file routes other than from_path with XInclude on two directories"],
     "stubs": ["XmlContext.get_subclasses(object) iterates a pool of model classes (the set of loaded classes is environment)", "coroutine lowering (sched/__init__.py) stands for thread preemption at statement boundaries"],
@@ -225,6 +225,9 @@ def _full_ops():
     ops.append(("xpn:unknown-root", lambda s: s["xp"].from_string('<nope xmlns="urn:zz"/>')))
     ops.append(("xpn:derived-root", lambda s: s["xp"].from_string('<derived xmlns="urn:a"><x>1</x><y>q</y></derived>')))
     ops.append(("tp:wild", lambda s, xml=xs.render(mutate.DOCS["wild"][1]): s["tp"].from_string(xml)))
+    xsia = '<base xmlns="urn:a" xmlns:t="urn:a" xmlns:xsi="http://www.w3.org/2001/XMLSchema-instance" xsi:type="t:derived"><x>1</x><y>q</y></base>'
+    ops.append(("xp:root-xsi-t", lambda s: s["xp"].from_string(xsia, Base)))  # the ROOT's xsi:type uses a prefix ...
+    ops.append(("xp:prefix-t-other", lambda s: s["xp"].from_string('<basic xmlns="urn:a" xmlns:t="urn:b"><i>1</i></basic>', Basic)))  # ... that another document binds elsewhere
     # file routes on a shared XInclude-enabled parser (both handlers): two directories, each with its own part.xml
     files = _xinclude_files()
     for h in ("xi_lxml", "xi_native"):
@@ -399,7 +402,8 @@ EXPLAIN = {"interleave": replay_real, "fullcall": explain_full}
 
 FULL_QUICK_A = ["xp:holder", "xpn:holder", "xp:unionmodels", "xs:holder", "jpn:holder"]
 FULL_QUICK_B = ["xp:holder", "xp:badint", "xp:wild", "jpn:holder"]
-FULL_FILE_PAIRS = [("xi_lxml:alpha", "xi_lxml:beta"), ("xi_native:alpha", "xi_native:beta"), ("xi_native:beta", "xi_lxml:alpha")]
+FULL_FILE_PAIRS = [("xi_lxml:alpha", "xi_lxml:beta"), ("xi_native:alpha", "xi_native:beta"), ("xi_native:beta", "xi_lxml:alpha"),
+                   ("xp:root-xsi-t", "xp:prefix-t-other"), ("xs:wild", "xs:wild"), ("xs:compound", "xs:compound")]
 FULL_THOROUGH_B = ["xp:holder", "xp:badint"]
 
 
